@@ -268,6 +268,8 @@ def check_C08(ctx, rep):
                              'cfg_algorithms.cfg_eliminate_terminals_in_place'], providers=['cfg_algorithms.cfg_fresh_variable'])
     if n < 3:
         raise AnalysisError('fewer than 3 variable-introduction sites found for C08')
+    fresh.check_universe_monotone(ctx, rep, F(ctx, 'cfg_algorithms.cfg_to_chomsky_in_place', 'cfg_algorithms.cfg_add_new_start_variable_in_place', 'cfg_algorithms.cfg_remove_epsilon_rules_in_place',
+                                              'cfg_algorithms.cfg_eliminate_unit_rules_in_place', 'cfg_algorithms.cfg_make_rules_of_length_two_in_place', 'cfg_algorithms.cfg_eliminate_terminals_in_place'))
     P = ctx.prog.func
     pda_rules.check_phase_order(ctx, rep, P('cfg_algorithms.cfg_to_chomsky_in_place'), P('notebook_chomsky.cfg_apply_chomsky'), P('notebook_chomsky.cfg_check_chomsky'))
     _effect_on(ctx, rep, ['cfg_algorithms.cfg_to_chomsky', 'cfg_algorithms.cfg_remove_epsilon_rules', 'cfg_algorithms.cfg_eliminate_unit_rules',
@@ -407,6 +409,7 @@ def check_C17(ctx, rep):
     if build.check_invariants(ctx, rep) < 30:
         raise AnalysisError('fewer than 30 invariant atoms expected')
     build.check_declared_vs_empty(ctx, rep)
+    work.check_scan_loops(ctx, rep, ctx.prog.funcs_of('automaton_algorithms') + [f for b in ('dfa_algorithms', 'nfa_algorithms', 'pda_algorithms', 'tm_algorithms') for f in ctx.prog.funcs_of(b) if f.cls is not None])
     iorules.check_label_layout(ctx, rep, 'pda')
     iorules.check_label_layout(ctx, rep, 'tm')
     iorules.check_keywords(ctx, rep)
